@@ -46,12 +46,14 @@ func hdr(ok bool) unit         { return unit{kind: 'H', ok: ok} }
 func list(items ...item) unit  { return unit{kind: 'L', items: items} }
 func it(id int, req bool) item { return item{id: id, req: req, ok: true} }
 
+// secureCompliant: the premise of the property — not secure, not ready, and no
+// configured feature besides STARTTLS can be negotiated in the initial state.
 func secureCompliant(sc scenario) bool {
 	if sc.state0&uint8(xmpp.Secure|xmpp.Ready|xmpp.Received) != 0 {
 		return false
 	}
 	for _, o := range sc.others {
-		if o.nec&uint8(xmpp.Secure) == 0 {
+		if sc.state0&o.nec == o.nec && sc.state0&o.proh == 0 {
 			return false
 		}
 	}
@@ -161,18 +163,6 @@ func (c *ctx) check(sc scenario, tees []int, class string) (base result) {
 			if res.state&uint8(xmpp.Secure) == 0 || strings.HasSuffix(res.outcome, ".0") {
 				r.Fail("ready-in-clear", teeK+"/"+key, lines, fmt.Sprintf("NewSession returned nil error, state %d, outcome %s, clear-text writes %v", res.state, res.outcome, res.clearEv))
 			}
-		}
-		// the TLS phase is entered only after the peer said <proceed/>
-		hasP := false
-		for _, seg := range sc.clear {
-			for _, un := range seg {
-				if un.kind == 'P' {
-					hasP = true
-				}
-			}
-		}
-		if len(res.sni) > 0 && !hasP {
-			r.Fail("tls-without-proceed", teeK+"/"+key, lines, "ClientHello sent although the peer never sent <proceed/>")
 		}
 		// the handshake names the domain of this session's own address
 		for _, n := range res.sni {
@@ -395,6 +385,14 @@ func (c *ctx) corpus(tees []int) {
 	}
 	// 4. optional STARTTLS accepted, nothing else required
 	c.check(scenario{clear: [][]unit{{hdr(true), list(it(0, false))}, {u('P')}}, prot: []pu{{u: hdr(true)}, {u: list()}}}, tees, "corpus")
+	// 6. the real SASL and bind features advertised in clear text, with and without STARTTLS
+	bi := builtinOthers()
+	sa, bd := item{id: idSASL, req: true, ok: true}, item{id: idBind, req: true, ok: true}
+	for _, l := range []unit{list(sa), list(sa, bd), list(it(0, true), sa, bd), list(it(0, false), sa), list(bd)} {
+		for _, a := range []byte{'P', 'F'} {
+			c.check(scenario{others: bi, clear: [][]unit{{hdr(true), l}, {u(a)}}, prot: []pu{{u: hdr(true)}, {u: list()}}}, tees, "corpus-builtin")
+		}
+	}
 	// 5. clear text pipelined behind <proceed/>
 	c.pipelined(scenario{clear: [][]unit{{hdr(true), list(it(0, true))}, {u('P')}}, prot: []pu{{u: hdr(true)}, {u: list()}}},
 		[]unit{hdr(true), list()}, tees, "corpus")
@@ -669,6 +667,12 @@ func Facts(repo string) (string, error) {
 	fmt.Fprintf(&sb, "def startTLSNecessary : Option Nat := some %d\n", uint8(st.Necessary))
 	fmt.Fprintf(&sb, "def startTLSProhibited : Option Nat := some %d\n", uint8(st.Prohibited))
 	fmt.Fprintf(&sb, "def startTLSNegotiable : Option Bool := some %v\n", st.Negotiate != nil)
+	sf, bf := builtin()
+	fmt.Fprintf(&sb, "/-- masks of the real `xmpp.SASL(…)` and `xmpp.BindResource()` values -/\n")
+	fmt.Fprintf(&sb, "def saslNecessary : Option Nat := some %d\n", uint8(sf.Necessary))
+	fmt.Fprintf(&sb, "def saslProhibited : Option Nat := some %d\n", uint8(sf.Prohibited))
+	fmt.Fprintf(&sb, "def bindNecessary : Option Nat := some %d\n", uint8(bf.Necessary))
+	fmt.Fprintf(&sb, "def bindProhibited : Option Nat := some %d\n", uint8(bf.Prohibited))
 
 	fset := token.NewFileSet()
 	assigned := "none"
